@@ -1118,9 +1118,15 @@ class Literal(Variable[T]):
         original_data = data
         data = [data]
         if not type_:
-            original_data_lst = make_list(original_data)
-            first_value = original_data_lst[0] if len(original_data_lst) > 0 else None
-            type_ = type(first_value) if first_value else None
+            # Only peek into plain lists and tuples: anything else may be produced lazily (and only once) or may run
+            # user code when it is consumed, indexed or tested for truth, which must not happen while a query is built.
+            if type(original_data) in (list, tuple):
+                first_value = original_data[0] if len(original_data) > 0 else None
+            elif is_iterable(original_data):
+                first_value = None
+            else:
+                first_value = original_data
+            type_ = type(first_value) if first_value is not None else None
         if name is None:
             if type_:
                 name = type_.__name__
